@@ -10,7 +10,7 @@ CHECKS = {
         "text": "Structural = the property: every global definition in every buildable configuration (host, 3 other Unix entropy variants, TRNG-none, volatile-clean; "
                 "N0 and -O3 IR) is constant and non-TLS, every external call is in a per-configuration allow-list of stateless imports (no heap, no VLA), no parameter pointer "
                 "is stored outside the frame except the documented callback retention, and the 27 assembly programs define no writable section. With these, a call's effect is "
-                "confined to its arguments and frame, so calls on disjoint objects commute under every schedule. R-C19-FRESH: the PRNG initialisers leave no byte of the caller's object that they later hash to its previous content (the other carrier of 'depends on earlier unrelated calls'); listed as not decided when the seeding summary does not follow the code.",
+                "confined to its arguments and frame, so calls on disjoint objects commute under every schedule. R-C19-FRESH: the PRNG initialisers leave no byte of the caller's object that they later hash to its previous content (the other carrier of 'depends on earlier unrelated calls'); listed as not decided when the seeding summary does not follow the code. R-C19-FRESH: the buffer handed to the entropy source is defined before the request in the initialisers and in reseed (a short delivery must not leave residue of the caller's object or of the stack in what is hashed).",
         "note": "Trusted: clang 14 front end; allow-listed libc functions are thread-safe and errno is per-thread. gcc builds are covered at symbol level only (thorough tier). "
                 "Windows/Arduino/ESP/STM32 TRNG files are not buildable here and not covered.",
         "technique": "module-level effect/ownership census over LLVM IR (globals, imports, pointer escapes) + assembly section scan",
@@ -29,7 +29,7 @@ CHECKS = {
                 "(this found the pinned defect at prng.c:161, repaired by the fix: commit). (2) Finite-class abstract execution (D-FIN): the callback's return size is partitioned by the "
                 "constants it is compared with; init_user/reseed return 1 exactly for the class {32}; the request is for 32 bytes into a 32-byte field. (3) Under callback == NULL the first "
                 "request resolves (field values tracked along the path) to the function plain init passes. (4) Must-pass rules: on every path after the request, whatever it returned, V and C "
-                "are re-derived by hashes that absorbed the callback's buffer, counters are set, the stored callback is never NULL.",
+                "are re-derived by hashes that absorbed the callback's buffer, counters are set, the stored callback is never NULL. One entropy request per path in init_user and reseed (two requests on one path: the status and the bytes mixed in are not those of one delivery).",
         "note": "Decides the control/data-flow shape that makes the statement true for every delivery pattern; does not compute hash values. Entropy quality is outside the property.",
         "technique": "null-check contradiction rule + finite-class abstract execution over the CFG + must-pass-through dominance rules",
     },
@@ -102,7 +102,7 @@ CHECKS = {
                 "same input state; substituting encrypt's output-byte terms for decrypt's input bytes, decrypt's output equals the plaintext bit for bit and its state equals encrypt's (a 0x7F mask, "
                 "a sign extension, a one-sided constant is refuted); the only length store is mlen+8 / clen-8; cursors and remaining length (or one index over full words plus the left-over count) advance in lock-step through one or several "
                 "data loops, the tag sits right after the data and survives, every input byte is loaded before the same output offset is stored; decrypt returns check_tag's verdict on the tag just generated."
-                " Structure is recognised first (pointer-walking or index-based loops, bulk loops, merged tails); an unrecognised shape ends in exit 2, never in a verdict. Code that tests buffer alignment is followed per alignment class (alternative chains of data loops; every way through encrypt paired with every way through decrypt); R-C01-SETUPFN: the shared setup function computes the same state from the nonce bytes on every path class; R-C01-NOSTATE: no function reachable from the entry points refers to writable global state. R-C01-SMALL: every message length 0..100 as straight paths - length stored, exactly the output bytes written, tag position, load before store per offset, no read outside the input. And relationally for every length 0..80: decrypt applied to encrypt's output-byte terms repeats encrypt's calls on the same inputs, returns the plaintext bytes bit for bit and compares the regenerated tag with the stored one.",
+                " Structure is recognised first (pointer-walking or index-based loops, bulk loops, merged tails); an unrecognised shape ends in exit 2, never in a verdict. Code that tests buffer alignment is followed per alignment class (alternative chains of data loops; every way through encrypt paired with every way through decrypt); R-C01-SETUPFN: the shared setup function computes the same state from the nonce bytes on every path class; R-C01-NOSTATE: no function reachable from the entry points refers to writable global state. R-C01-SMALL: every message length 0..100 as straight paths - length stored, exactly the output bytes written, tag position, load before store per offset, no read outside the input. And relationally for every length 0..80: decrypt applied to encrypt's output-byte terms repeats encrypt's calls on the same inputs, returns the plaintext bytes bit for bit and compares the regenerated tag with the stored one. The length out-parameter is write-only until stored (every load from it is dominated by a store).",
         "note": "Induction itself is the argument in DESIGN.md. A deviation from the specification made consistently in both directions keeps the round trip and is deliberately not reported by this "
                 "check. N0 IR of clang 14; alignment/endianness independence is C06's R-BYTEWISE; purity of helpers/permutation is C05/C19.",
         "technique": "relational symbolic path summaries (encrypt vs decrypt) in a GF(2) bit-provenance term domain with term substitution, per path class; affine cursor tracking",
@@ -124,7 +124,7 @@ CHECKS = {
                 " R-C08-SETUPFN (setup is a function of the nonce bytes on every path class and every nonce bit enters the state), R-C08-NOSTATE (no writable global state reachable), R-C08-SMALL "
                 "(every length 0..100 as straight paths: i/o and memory discipline, refusal of inputs shorter than a tag; relationally for every length 0..80: decrypt's two passes are encrypt's two passes on the same inputs, plaintext recovered bit for bit, regenerated tag = stored tag). "
                 "R-C08-ABSORB: the shared absorb function (associated data, and the plaintext of the authentication pass) is injective in the bytes of every segment - a loss of input bits made alike "
-                "in both directions keeps the round trip but lets modified bodies or associated data through. R-C08-KEY: the key words are an injective function of the key bytes.",
+                "in both directions keeps the round trip but lets modified bodies or associated data through. R-C08-KEY: the key words are an injective function of the key bytes. The length out-parameter is write-only until stored (every load from it is dominated by a store).",
         "note": "Values not computed; tag sensitivity is a cipher property; check_tag itself is decided under C03/C04. Consistent deviations from the construction are C09's.",
         "technique": "relational symbolic path summaries (encrypt vs decrypt) in a GF(2) term domain; finite-class execution for the length guard",
     },
